@@ -342,3 +342,83 @@ def equal(t1, t2, N=None, limit=4096, with_unordered=False):
         if N.key(a) != N.key(b):
             return False, f
     return True, None
+
+
+# ---------------------------------------------------------------------------------------------------------------------
+# Real-arithmetic equality is blind to two things a floating-point program can do to a formula without changing its
+# rational normal form: add and subtract the same (large) quantity, and multiply something possibly non-finite by 0.
+def hazards(t, N=None, ratio=10 ** 6):
+    """-> list of descriptions.  For every additive tree of the term (maximal chains of + / - / neg, whatever they sit in) the
+    summands are normalised one by one and then added twice: with their signs, and with all coefficients made positive.  A
+    monomial whose signed coefficient is 0 (or `ratio` times smaller than the unsigned one) is a quantity that the code adds
+    and takes away again: exact over the rationals, a rounding error of the size of that quantity in binary64."""
+    N = N or Normalizer()
+    out = []
+    seen = set()
+
+    def units(x, sign, acc):
+        if isinstance(x, tuple) and x and x[0] in ("+", "-") and len(x) == 3:
+            units(x[1], sign, acc)
+            units(x[2], sign if x[0] == "+" else -sign, acc)
+        elif isinstance(x, tuple) and x and x[0] == "neg":
+            units(x[1], -sign, acc)
+        else:
+            acc.append((sign, x))
+
+    def visit(x, parent_additive=False):
+        if not isinstance(x, tuple) or not x:
+            return
+        if not isinstance(x[0], str):
+            for y in x:
+                visit(y)
+            return
+        if id(x) in seen:
+            return
+        seen.add(id(x))
+        h = x[0]
+        if (h in ("+", "-", "neg") and not parent_additive) or (h in CMP and len(x) == 3):
+            acc = []
+            if h in CMP:
+                # `a + L < b + L` decides by a - b over the rationals; in binary64 L absorbs the difference
+                units(x[1], 1, acc)
+                units(x[2], -1, acc)
+            else:
+                units(x, 1, acc)
+            groups = {}
+            for sg, u in acc:
+                try:
+                    r = N.rat(u)
+                except Exception:
+                    continue
+                g = groups.setdefault(r.d.key(), [Poly(), {}])
+                g[0] = g[0] + (r.n if sg > 0 else -r.n)
+                for k, v in r.n.t.items():
+                    g[1][k] = g[1].get(k, 0) + abs(v)
+            for dk, (net, mag) in groups.items():
+                for k, a in mag.items():
+                    if k == ():
+                        continue  # plain numbers: 1 - k etc.
+                    c = net.t.get(k, 0)
+                    # `m + (x - m)` loses a bit or two; what destroys a result is a cancelling quantity that is large against it:
+                    # a big coefficient (x * 1e10, x * 999 * 999 * 999) or a product of values (x * period^3)
+                    big = a >= 1000 or sum(e for _, e in k) >= 2
+                    if (c == 0 and big) or (c != 0 and a / abs(c) >= ratio):
+                        out.append("the quantity %s is added and subtracted again (sum of magnitudes %s, net coefficient %s)" % (_mono(k), float(a), float(c)))
+        if h == "*" and len(x) == 3:
+            for z, o in ((x[1], x[2]), (x[2], x[1])):
+                if isinstance(z, tuple) and len(z) == 3 and z[0] == "c" and z[1] in ("f64", "int") and z[2] == 0 and \
+                        any(isinstance(y, tuple) and y and y[0] in ("/", "sqrt", "ucall", "ln", "exp", "powi", "powf") for y in subterms(o)):
+                    out.append("a product with the literal 0 whose other factor may be non-finite (0 * inf is NaN, not 0)")
+        for y in x[1:]:
+            visit(y, parent_additive=((h in ("+", "-", "neg") or (h in CMP and len(x) == 3)) and isinstance(y, tuple) and y and y[0] in ("+", "-", "neg")))
+
+    visit(t)
+    return out
+
+
+def _mono(k):
+    def nm(a):
+        if isinstance(a, tuple) and a and a[0] in ("arg", "pre"):
+            return str(a[1])
+        return str(a)[:60]
+    return " * ".join(nm(a) + ("^%d" % e if e != 1 else "") for a, e in k) or "1"
